@@ -1,33 +1,25 @@
 NP = "np_srvnts_h"
 PROP = dict(
     functions=[
-        "ntp_proto::server::Server<FixedClock>::handle (NTS paths of handle_inner: NAK on decrypt failure, cipher choice)",
-        "ntp_proto::packet::NtpPacket::{deserialize, nts_timestamp_response, nts_nak_response, nts_deny_response, deny_response, serialize}",
-        "ntp_proto::packet::extension_fields::{ExtensionFieldData::{deserialize, serialize}, RawEncryptedField::{from_message_bytes, decrypt}, ExtensionField::encode_encrypted}",
-        "<ntp_proto::keyset::KeySet as CipherProvider>::get (real), KeySet::{decode_cookie, encode_cookie} (models)",
+        "ntp_proto::packet::NtpPacket::nts_timestamp_response (NTPv4 arm: cookie generation, unique-identifier echo), NtpHeaderV3V4::timestamp_response",
+        "ntp_proto::keyset::KeySet::encode_cookie (model)",
     ],
-    bounds=("NTPv4 layout template header48 | unique identifier(16) | cookie(8) | authenticator(nonce 16, empty plaintext, tag 16) = 120 bytes; "
-            "constant per harness: layout, policy (serve / deny by address), authentication outcome (ok / cookie does not decode / tag does not verify); "
-            "symbolic: header bytes 1..47, identifier, 4 cookie bytes, nonce, tag, reception time, clock, synchronisation state; model cookie length 8 "
-            "(the code only compares cookie lengths with request field lengths; the real length is 104)"),
-    outside=("placeholders and cookies/placeholders inside the encrypted part (the 8-cookie limit and the per-placeholder size guard are NOT exercised: with a placeholder in the template symbolic execution of "
-             "the answer serializer did not finish within the 30-minute cap), extra authenticated/encrypted/unauthenticated fields, NTPv5 NTS, real AES-SIV (ideal-AEAD assumption), "
-             "cookie confidentiality, key rotation histories (abstracted into 'the cookie decodes or it does not')"),
+    bounds=("request packet built from parts: authenticated [unique identifier(32 symbolic bytes), cookie(8), 2 cookie placeholders with symbolic 16-bit lengths], nothing encrypted; "
+            "fresh cookie length 8 (model; the code only compares cookie lengths with request field lengths, the real length is 104); symbolic reception time, clock, synchronisation state, poll, transmit timestamp"),
+    outside=("everything that needs Server::handle on an NTS request: NAK/DENY after authentication failure, choice of the s2c key, associated-data coverage of the authenticator, answer size. Harnesses for these exist "
+             "(c19_nts_* on bytes, c19_inner_* on the unserialized answer) but are not registered: symbolic execution of the NTS request path (KeySet::get, boxed dyn Cipher, decrypt, drop glue) exceeded 8 GB before reaching the answer, "
+             "also with the real AES ciphers stubbed out and KeySet::get replaced by an index-loop model. Also outside: more than 2 placeholders (c19_cookies_p9 with 10 candidates, unwind 13, and c19_cookies_small_cookie with an encrypted placeholder "
+             "exceed 8 GB), so the limit of eight is NOT exercised; NTPv5; real AES-SIV and real cookie encoding (ideal model); cookie confidentiality; key rotation"),
     assumptions=[
-        "ideal AEAD (DESIGN 2.6): decrypt under the cookie's c2s key succeeds iff the harness flag 'authentic' is set; the extents handed to decrypt are recorded and asserted to be exactly (request prefix, nonce, ciphertext)",
-        "cookie model: decode_cookie succeeds iff the harness flag 'cookie valid' is set and yields the association's (s2c, c2s) model keys; encode_cookie returns an 8-byte cookie tagged with call number and session key ids and records the key set it ran on",
-        "server state and policy as in C18",
+        "cookie model: encode_cookie returns an 8-byte cookie tagged with call number and session key ids and records the key set it ran on; session ciphers are ModelCipher (ids S2C/C2S)",
+        "server state: precision >= 0, 0 <= root delay, root dispersion <= 65535 s",
     ],
     stub_notes=[
-        "ntp_proto::KeySet::decode_cookie -> common::model_decode_cookie; ntp_proto::KeySet::encode_cookie -> common::model_encode_cookie",
-        "session ciphers: common::ModelCipher (implements the public Cipher trait)",
-        "as C18 for root_dispersion / from_utf8 / is_ascii / cargo-kani flags",
+        "ntp_proto::KeySet::encode_cookie -> common::model_encode_cookie (decode_cookie / KeySet::get / AesSivCmac*::{encrypt,decrypt} models are attached but unreachable in this harness)",
+        "TimeSnapshot::root_dispersion -> arbitrary non-negative duration",
+        "cargo-kani flags from harness/np_srvnts_h/Cargo.toml: no-assertion-reach-checks, no-memory-safety-checks, no-overflow-checks, --max-field-sensitivity-array-size 127",
     ],
     harnesses=[
-        H(NP, "c19", "c19_nts_time", "authentic request: time answer, authenticated by exactly one encrypt call under the s2c key over exactly the answer prefix (prefix unchanged afterwards), one fresh cookie from encode_cookie(current key set, same session keys), answer = request length", timeout=1800),
-        H(NP, "c19", "c19_nts_nak_cookie", "cookie does not decode: NTS NAK (stratum 0, NTSN, no timestamps), only the identifier echoed, nothing encrypted", timeout=1800),
-        H(NP, "c19", "c19_nts_nak_tag", "cookie decodes, tag does not verify: NTS NAK, never time", timeout=1800),
-        H(NP, "c19", "c19_nts_deny", "authentic request of a denied client: DENY authenticated under s2c, no cookies", tier="thorough", timeout=1800),
-        H(NP, "c19", "c19_nts_deny_unauth", "unauthenticated request of a denied client: plain DENY, never time", tier="thorough", timeout=1800),
+        H(NP, "c19", "c19_cookies_p2", "cookie + 2 placeholders of symbolic length: #fresh cookies <= #fields at least as long as a fresh cookie (<= 3 <= 8); every cookie comes from its own encode_cookie call for the same session keys under the given key set; only the unique identifier is echoed", timeout=1800),
     ],
 )
